@@ -434,7 +434,7 @@ fn finish_run<P: std::ops::Deref<Target = RecStore>>(ctx: &Ctx, rec: &mut Rec, t
 	let snaps = snaps_ref.unwrap_or(&o.snaps);
 	let fault = format!("N-dependent crash={:?} fail_at={:?} fail_eff={} no_eff={:?}", f.crash, f.fail_at, f.fail_eff, &f.no_eff[..f.no_eff.len().min(12)]);
 	let mut kind = "not-started";
-	if o.started && !class.contains("junkname") {
+	if o.started && !class.contains("junk") {
 		match &r {
 			Ok(Ok(l)) if l.len() == 1 => {
 				let got = l[0].1.encode();
@@ -529,6 +529,16 @@ fn mup_model(args: &Args) {
 				if si == 0 && n == 3 {
 					let mut s2: Vec<Call> = script.iter().take(6).cloned().collect(); s2.push(Call::InjectJunkName); s2.push(Call::Cleanup(true));
 					if let Some(o) = run_script(&ctx, &mut rec, &{ run_id += 1; format!("r{}", run_id) }, h, &s2, start_at, n, &nof, &stale, None, &format!("N{}:junkname", n)) { total_lines += o.lines; }
+				}
+				// the point excluded by the initial-state hypothesis of `persister_recovers` (a foreign, non-stale
+				// update key above the new monitor's id): run the real code exactly there; model and code must
+				// agree (`err` while the junk is still there, fine once a real update overwrote it); no oracle.
+				if si == 0 && (n == 3 || n == 0 || n == 10) {
+					let base_id = if start_at > 0 { h.updates[start_at - 1].update_id } else { h.updates[0].update_id - 1 };
+					for len in [1usize, 4] {
+						let s3: Vec<Call> = (start_at..start_at + len).map(|i| Call::Upd(i, false)).collect();
+						if let Some(o) = run_script(&ctx, &mut rec, &{ run_id += 1; format!("r{}", run_id) }, h, &s3, start_at, n, &nof, &[base_id + 2], None, &format!("N{}:junkabove{}", n, len)) { total_lines += o.lines; }
+					}
 				}
 				// --- every crash point x lazy-delete subsets x one failing op
 				let cap: u64 = if args.thorough { 150 } else { 48 };
